@@ -271,6 +271,21 @@ MUTANTS = [
      'edits': [(SCAN, "                    buffer.push_str(s);\n                    self.line += 1;", "                    buffer.push_str(s);")]},
     {'name': 'L3 error_at reports the previous token line', 'prop': 'C17', 'expect': 'L3 / error_at formats token.line',
      'edits': [(COMP, "            self.module_path.as_str(),\n            token.line\n", "            self.module_path.as_str(),\n            self.previous.line\n")]},
+    # ---- C12 ----------------------------------------------------------------------------------------
+    {'name': 'H1 vecs admitted as keys', 'prop': 'C12', 'expect': 'H1 / has_hash admits ObjVec -> Hash arm',
+     'edits': [(VAL, "            Value::ObjRange(_) => true,\n            Value::None => true,\n            _ => false,", "            Value::ObjRange(_) => true,\n            Value::ObjVec(_) => true,\n            Value::None => true,\n            _ => false,")]},
+    {'name': 'H1 equality loses the tuple arm', 'prop': 'C12', 'expect': 'H1 / has_hash admits ObjTuple -> PartialEq arm',
+     'edits': [(VAL, "            (Value::ObjTuple(first), Value::ObjTuple(second)) => **first == **second,\n", "")]},
+    {'name': 'H2 has_key looks the key up before validating it', 'prop': 'C12', 'expect': 'H2 / yarel::core::hash_map_has_key / contains_key',
+     'edits': [(CORE, "    let key = validate_hash_map_key(vm.peek(0))?;\n    let borrowed_hash_map = hash_map.borrow();\n    Ok(Value::Boolean(\n        borrowed_hash_map.elements.contains_key(&key),\n    ))",
+                "    let key = vm.peek(0);\n    let borrowed_hash_map = hash_map.borrow();\n    let found = borrowed_hash_map.elements.contains_key(&key);\n    validate_hash_map_key(key)?;\n    Ok(Value::Boolean(found))")]},
+    {'name': 'H2 literal construction skips the hashability test', 'prop': 'C12', 'expect': 'H2 / yarel::vm::Vm::build_hash_map / insert',
+     'edits': [(VM, "            if !key.has_hash() {", "            if !key.has_hash() && false {")]},
+    {'name': 'H3 raw bit pattern hashed again', 'prop': 'C12', 'expect': 'H3 / hash_number canonicalises zero',
+     'edits': [(UTILS, "    let num = if num == 0.0 { 0.0 } else { num };\n", "")]},
+    {'name': 'H4 insert borrows the map before validating the key', 'prop': 'C12', 'expect': 'H4 / hash_map_insert',
+     'edits': [(CORE, "    let key = validate_hash_map_key(vm.peek(1))?;\n    let value = vm.peek(0);\n\n    let mut borrowed_hash_map = hash_map.borrow_mut();",
+                "    let mut borrowed_hash_map = hash_map.borrow_mut();\n    borrowed_hash_map.elements.remove(&Value::None);\n    let key = validate_hash_map_key(vm.peek(1))?;\n    let value = vm.peek(0);\n")]},
 ]
 
 BENIGN = [
